@@ -107,3 +107,15 @@ class Renumber:
         if num in self._drop:
             return bool(a[2]) if len(a) > 2 else True
         return self._ctx.ob(self._t.get(num, num), *a, **kw)
+
+
+def pos(f: Func, n: ast.AST) -> int:
+    """position of node n in the text of f as the rules see it (depth-first order; meaningful also where helpers were inlined, whose
+    statements keep the line numbers of their own definition)"""
+    from ..util import source_order
+    o = source_order(f.node).get(id(n))
+    return o[0] if o is not None else 10 ** 9 + getattr(n, "lineno", 0)
+
+
+def before(f: Func, a: ast.AST, b: ast.AST) -> bool:
+    return pos(f, a) < pos(f, b)
